@@ -658,6 +658,45 @@ theorem paused_no_progress (w : World) (r : StepResult) (h : reconcile w = .val 
     · rfl
   · rfl
 
+/-! ### C04 / C02 — an unreadable workload status means "wait" (whole reconcile) -/
+
+/-- **whole reconcile** — for every world: while the workload's status lags behind its spec and the Rollout is not being
+    deleted, a reconcile writes nothing to the BatchRelease, the workload or the network, keeps the status cursor, the
+    phase and the Progressing reason, and asks to be run again.  In particular a *disabled* Rollout does not start (or
+    continue) its clean-up in that window. -/
+theorem inconsistent_waits (w : World) (r : StepResult) (h : reconcile w = .val r) : inconsistentWaits w r = true := by
+  unfold inconsistentWaits
+  split
+  · rename_i wl hwl
+    split
+    · rename_i hc
+      obtain ⟨hcons, hdel⟩ := hc
+      have hdel' : w.ro.deleting = false := by simpa using hdel
+      have hhf : (handleFinalizer w.ro).1.deleting = false ∧ (handleFinalizer w.ro).1.sub = w.ro.sub ∧
+          (handleFinalizer w.ro).1.phase = w.ro.phase ∧ (handleFinalizer w.ro).1.reason = w.ro.reason := by
+        unfold handleFinalizer
+        simp only [hdel', Bool.false_eq_true, if_false]
+        split <;> refine ⟨?_, rfl, rfl, rfl⟩ <;> first | rfl | exact hdel'
+      have hcs : calculateStatus (handleFinalizer w.ro).1 w.wl = none := by
+        unfold calculateStatus
+        rw [if_neg (by simp [hhf.1]), hwl]
+        dsimp only
+        rw [if_pos hcons]
+      unfold reconcile at h
+      dsimp only at h
+      rw [hcs] at h
+      simp only [Out.val.injEq] at h
+      subst h
+      simp [hhf.2.1, hhf.2.2.1, hhf.2.2.2]
+    · rfl
+  · rfl
+
+example : inconsistentWaits
+    { ro := { (default : Rollout) with phase := .disabling, hasFinalizer := true }, wl := some { (default : WL) with consistent := false },
+      br := none, net := default, mem := default }
+    { w := { ro := { (default : Rollout) with phase := .disabling, hasFinalizer := true }, wl := some { (default : WL) with consistent := false },
+             br := none, net := default, mem := default }, roGone := false, requeue := true, err := false, writes := [] } = true := by decide
+
 /-! ### C18 — the Rollout's own finalizer (whole reconcile) -/
 
 theorem cs_fin (ro ns : Rollout) (wl : Option WL) (h : calculateStatus ro wl = some ns) :
